@@ -764,30 +764,50 @@ func (g *G) Steps(label string, maxSteps int) []Step {
 	}
 	// update pattern: With() logger a, a Level/Hook/Sample copy b of it, then UpdateContext on a
 	// (half of the time starting with Reset): b shares a's backing array and must not notice
-	patAt := -1
+	patAt, patKind := -1, ""
 	if g.cfg.Tree && n >= 4 && burstLeft == 0 && rapid.IntRange(0, 3).Draw(t, label+".updpat") == 0 {
-		patAt = rapid.IntRange(0, n-3).Draw(t, label+".updat")
+		// "copy":     With() logger a; a Level/Hook/Sample/ctx copy b of it; UpdateContext on a
+		// "disabled": Level(Disabled) logger d; a = d.With()...; UpdateContext on a; a.Level(enabled):
+		//             the update of a logger that is switched off must still be there when a child switches it on
+		patKind = rapid.SampledFrom([]string{"copy", "copy", "disabled"}).Draw(t, label+".updkind")
+		patAt = rapid.IntRange(0, n-4).Draw(t, label+".updat")
 	}
 	patReset := false
+	forceLevel := 99
 	for i := 0; i < n; i++ {
 		parent := i - 1
 		var from *int
 		forced := ""
 		switch {
-		case patAt >= 0 && i == patAt:
+		case patKind == "copy" && i == patAt:
 			forced = "with"
-		case patAt >= 0 && i == patAt+1:
+		case patKind == "copy" && i == patAt+1:
 			forced = rapid.SampledFrom([]string{"level", "sample", "hook", "viactx"}).Draw(t, label+".updcopy")
 			if g.cfg.NoHooks && forced == "hook" {
 				forced = "level"
 			}
 			f := patAt
 			from, parent = &f, f
-		case patAt >= 0 && i == patAt+2:
+		case patKind == "copy" && i == patAt+2:
 			forced = "update"
 			f := patAt
 			from, parent = &f, f
 			patReset = rapid.Bool().Draw(t, label+".updreset")
+		case patKind == "disabled" && i == patAt:
+			forced, forceLevel = "level", 7
+		case patKind == "disabled" && i == patAt+1:
+			forced = "with"
+			f := patAt
+			from, parent = &f, f
+		case patKind == "disabled" && i == patAt+2:
+			forced = "update"
+			f := patAt + 1
+			from, parent = &f, f
+			patReset = rapid.IntRange(0, 3).Draw(t, label+".updreset") == 0
+		case patKind == "disabled" && i == patAt+3:
+			forced, forceLevel = "level", rapid.SampledFrom([]int{-1, 0, 1}).Draw(t, label+".updon")
+			f := patAt + 1
+			from, parent = &f, f
 		case burstLeft > 0:
 			burstLeft--
 			forced = burstKind
@@ -841,6 +861,9 @@ func (g *G) Steps(label string, maxSteps int) []Step {
 			}
 		case "level":
 			st.Level = rapid.SampledFrom([]int{-1, -1, 0, 0, 1, -5, 3, 7, 7, 6, 5}).Draw(t, label+".lvl")
+			if forced == "level" && forceLevel != 99 {
+				st.Level, forceLevel = forceLevel, 99
+			}
 		case "viactx":
 			st.N = uint32(rapid.IntRange(0, 1).Draw(t, label+".ctxhas"))
 		case "sample":
